@@ -70,6 +70,37 @@ impl Cfg {
             self.nks
         )
     }
+    pub fn to_spec(&self) -> String {
+        format!(
+            "{:?},{},{},{:?},{},{},{}",
+            self.kind, self.blob as u8, self.tiny as u8, self.strat, self.lz4 as u8, self.manual_persist as u8, self.nks
+        )
+    }
+    pub fn from_spec(s: &str) -> Option<Cfg> {
+        let f: Vec<&str> = s.split(',').collect();
+        if f.len() != 7 {
+            return None;
+        }
+        Some(Cfg {
+            kind: match f[0] {
+                "Plain" => DbKind::Plain,
+                "SingleWriter" => DbKind::SingleWriter,
+                "Optimistic" => DbKind::Optimistic,
+                _ => return None,
+            },
+            blob: f[1] == "1",
+            tiny: f[2] == "1",
+            strat: match f[3] {
+                "Leveled" => Strat::Leveled,
+                "LeveledL2" => Strat::LeveledL2,
+                "Fifo" => Strat::Fifo,
+                _ => return None,
+            },
+            lz4: f[4] == "1",
+            manual_persist: f[5] == "1",
+            nks: f[6].parse().ok()?,
+        })
+    }
     pub fn ks_opts(&self) -> KeyspaceCreateOptions {
         let mut o = KeyspaceCreateOptions::default();
         if self.blob {
@@ -325,6 +356,8 @@ pub struct World {
     pub filter: Option<fjall_filter::Assigner>,
     /// statistics: set when the corresponding situation was reached at least once
     pub wit: Witness,
+    /// do not delete the directory on drop (crash driver)
+    pub keep_dir: bool,
 }
 
 pub mod fjall_filter {
@@ -431,9 +464,36 @@ impl World {
             steps: 0,
             filter,
             wit: Witness::default(),
+            keep_dir: false,
         };
         for i in 0..w.cfg.nks as u8 {
             w.create_ks(i)?;
+        }
+        Ok(w)
+    }
+
+    /// Opens an existing directory (crash image) as a world whose model is `model`.
+    pub fn open_existing(dir: PathBuf, cfg: Cfg, model: BTreeMap<u8, Map>) -> Result<World, Violation> {
+        let db = open_db(&dir, &cfg, &None)
+            .map_err(|e| Violation::new("open", format!("open failed: {e:?}")))?;
+        let mut w = World {
+            dir,
+            cfg,
+            db: Some(db),
+            ks: BTreeMap::new(),
+            model,
+            steps: 0,
+            filter: None,
+            wit: Witness::default(),
+            keep_dir: false,
+        };
+        let names: Vec<u8> = w.model.keys().copied().collect();
+        for i in names {
+            let h = w
+                .dbi()
+                .keyspace(ksn(i), KeyspaceCreateOptions::default)
+                .map_err(|e| Violation::new("open", format!("keyspace: {e:?}")))?;
+            w.ks.insert(i, h);
         }
         Ok(w)
     }
@@ -691,7 +751,9 @@ impl World {
 impl Drop for World {
     fn drop(&mut self) {
         self.close();
-        let _ = std::fs::remove_dir_all(&self.dir);
+        if !self.keep_dir {
+            let _ = std::fs::remove_dir_all(&self.dir);
+        }
     }
 }
 
